@@ -243,3 +243,23 @@ theorem idle_noEquivocation : NoEquivocation idleMachine := by
   simp [votesOf] at hv
 
 end Juno.C13
+
+namespace Juno.C13
+
+/-- A machine whose `start` step already commits its height (as the real machine does when a
+proposal and enough votes for the height arrived early). `aliased = true` logs the `Start` entry
+with the height AFTER that commit (what `(*wal.Start)(&s.state.height)` yields in the real code),
+`aliased = false` logs it with the height that was started. -/
+def eagerMachine (aliased : Bool) : Machine (Nat × Bool) where
+  init := fun h => (h, false)
+  height := fun s => s.1
+  started := fun s => s.2
+  step := fun s i =>
+    match i with
+    | .start =>
+      if s.2 then (s, [])
+      else ((s.1 + 1, false),
+        [.writeWAL (.start (if aliased then s.1 + 1 else s.1)), .commit s.1 7])
+    | _ => (s, [])
+
+end Juno.C13
